@@ -779,6 +779,30 @@ def rule_composite(ctx):
                 if cond.get("k") != "Binary" or cond["op"] not in (">", ">=", "<", "<="):
                     continue
                 l, rr = peel_refs(cond["l"]), peel_refs(cond["r"])
+                if l.get("k") == "Field" and rr.get("k") == "Field" and l["name"] == rr["name"] and peel_refs(l["e"]).get("k") == "Path" and peel_refs(rr["e"]).get("k") == "Path":
+                    # `candidate.1 > best.1` on (label, probability) pairs updated in place
+                    fld = l["name"]
+                    lb, rb = peel_refs(l["e"]), peel_refs(rr["e"])
+                    bigp, smallp = (lb, rb) if cond["op"] in (">", ">=") else (rb, lb)
+                    wrote = set()
+                    for x in walk(n["then"]):
+                        if x.get("k") == "Assign":
+                            t = peel_refs(x["l"])
+                            if t.get("k") == "Field" and peel_refs(t["e"]).get("local") == smallp.get("local"):
+                                wrote.add(t["name"])
+                            elif t.get("k") == "Path" and t.get("local") == smallp.get("local"):
+                                wrote.add("*")
+                    if not wrote:
+                        continue
+                    found = True
+                    if "*" in wrote or (fld in wrote and len(wrote) >= 2):
+                        res.ok()
+                        res.sample({"fn": key, "rule": "under `%s` the whole incumbent pair is replaced" % r.e(cond)})
+                    elif fld not in wrote:
+                        res.violate("%s : argmax-partial-update" % key, "under `%s` the label of the incumbent is replaced but its probability `%s.%s` is not: later members are compared with a stale maximum" % (r.e(cond), smallp.get("name"), fld), fn_loc(fn, n["ln"]))
+                    else:
+                        res.violate("%s : argmax-partial-update" % key, "under `%s` only `%s.%s` of the incumbent is replaced: label and probability no longer belong together" % (r.e(cond), smallp.get("name"), fld), fn_loc(fn, n["ln"]))
+                    break
                 if l.get("k") != "Path" or rr.get("k") != "Path" or "local" not in l or "local" not in rr:
                     continue
                 big, small = (l, rr) if cond["op"] in (">", ">=") else (rr, l)
